@@ -6,7 +6,7 @@
 (* the grid the method's loops build (transcribed in Stage2Sets) covers    *)
 (* every prime in (B1, B2] where B2 is the value the row reports and B1    *)
 (* the smallest admissible bound (at least the largest prime factor of     *)
-(* d1).  One state per (row, method).  A row that fails is printed         *)
+(* d1).  One state per row, one successor per method.  A row that fails is printed         *)
 (* (<<"ROWFAIL", ...>>) with the uncovered band: this is where an          *)
 (* off-by-one in an index range, or a table value rounded above what the   *)
 (* grid reaches, shows.                                                    *)
@@ -18,27 +18,27 @@ Rows == ndJsonDeserialize(IOEnv.ROWS)
 MethodsOf(r) == IF r.table = "params" THEN {"ecm", "ecm128", "pp1"}
                 ELSE IF r.poly THEN {"pm1poly"} ELSE {}
 
-Cov(m, r) ==
-  CASE m \in {"ecm", "ecm128"} -> CovPlusMinus(EcmGiants(r.d2), EcmBabies(r.d1), r.d1)
-    [] m = "pp1"               -> CovPlusMinus(Pp1Giants(r.d2), Pp1Babies(r.d1), r.d1)
-    [] m = "pm1poly"           -> CovMinus(Pm1PolyGiants(r.d1, r.d2), Pm1PolyBabies(r.d1), r.d1)
+Unc(m, r, lo, hi) ==
+  CASE m \in {"ecm", "ecm128"} -> UncoveredPM(EcmGiants(r.d2), EcmBabies(r.d1), r.d1, lo, hi)
+    [] m = "pp1"               -> UncoveredPM(Pp1Giants(r.d2), Pp1Babies(r.d1), r.d1, lo, hi)
+    [] m = "pm1poly"           -> UncoveredMinus(Pm1PolyGiants(r.d1, r.d2), Pm1PolyBabies(r.d1), r.d1, lo, hi)
 
 B1Of(r) == Max2I(16, MaxPF(r.d1))
 
 VARIABLES i, m
 vars == <<i, m>>
-Init == i \in 1..Len(Rows) /\ m \in MethodsOf(Rows[i])
-Next == UNCHANGED vars
+\* two levels (row, then method) so that TLC's workers share the rows
+Init == i \in 1..Len(Rows) /\ m = "none"
+Next == m = "none" /\ m' \in MethodsOf(Rows[i]) /\ i' = i
 Spec == Init /\ [][Next]_vars
 
-RowPromise == Promise(Cov(m, Rows[i]), B1Of(Rows[i]), Rows[i].b2)
-
-SetMin(S) == CHOOSE x \in S : \A y \in S : x <= y
-SetMax(S) == CHOOSE x \in S : \A y \in S : x >= y
-\* reporting variant: always TRUE, prints the uncovered band of a failing row
+\* reporting invariant: always TRUE, prints the uncovered band of a failing row
 RowReport ==
   LET r == Rows[i]
-      u == Uncovered(Cov(m, r), B1Of(r), r.b2)
-  IN IF u = {} THEN PrintT(<<"ROWOK", m, r.b2, r.d1, r.d2>>)
-     ELSE PrintT(<<"ROWFAIL", m, r.b2, r.d1, r.d2, Cardinality(u), SetMin(u), SetMax(u)>>)
+      u == Unc(m, r, B1Of(r), r.b2)
+  IN IF m = "none" THEN TRUE ELSE
+     IF u = {} THEN PrintT(<<"ROWOK", m, r.b2, r.d1, r.d2>>)
+     ELSE PrintT(<<"ROWFAIL", m, r.b2, r.d1, r.d2, Cardinality(u), SetMaxI({0 - x : x \in u}), SetMaxI(u)>>)
+\* the invariant proper
+RowPromise == m # "none" => Unc(m, Rows[i], B1Of(Rows[i]), Rows[i].b2) = {}
 =============================================================================
